@@ -32,7 +32,7 @@ SET_KINDS = ('Set', 'TreeSet')
 
 def bounds(tier):
     return ('quick: all 22 families x both implementations, 4-key universe (256 ordered subset pairs) '
-            'x 13 x 13 operand forms x up to 11 operations, plus the extreme universe for set/tree '
+            'x 16 x 16 operand forms (incl. subclass instances, one-shot iterators, equal-but-distinct key objects) x up to 11 operations, plus the extreme universe for set/tree '
             'operands; thorough: 5-key universe')
 
 
@@ -56,9 +56,32 @@ def jobs(tier):
 
 # --------------------------------------------------------------------------
 
-FORMS = ['Set', 'TreeSet', 'TreeSet/thin', 'Bucket', 'BTree', 'BTree/thin',
-         'list', 'list/shuffled+dup', 'tuple', 'gen', 'pyset', 'dict', 'None']
-CONTAINER_FORMS = FORMS[:6]
+FORMS = ['Set', 'TreeSet', 'TreeSet/thin', 'Bucket', 'BTree', 'BTree/thin', 'Set/sub', 'BTree/sub',
+         'list', 'list/shuffled+dup', 'tuple', 'gen', 'iter', 'pyset', 'dict', 'None']
+CONTAINER_FORMS = FORMS[:8]
+ONE_SHOT = ('gen', 'iter')
+
+_subs = {}
+
+
+def subclass_of(cls):
+    """An application subclass of a container class (operands and targets may be instances of one)."""
+    c = _subs.get(cls)
+    if c is None:
+        c = _subs[cls] = type('Sub' + cls.__name__, (cls,), {})
+    return c
+
+
+def clone(k):
+    """An object equal to k but - where the type allows - not the same object: the elements of a plain
+    iterable operand are the caller's objects, and two equal keys in it need not be identical."""
+    if isinstance(k, UH):
+        return UH(k.v)
+    if type(k) is int:
+        return int(str(k))          # a new object outside the small-int cache
+    if type(k) is bytes:
+        return bytes(bytearray(k))
+    return k
 
 
 def make(fam, impl, form, subset, keys, vals):
@@ -68,6 +91,8 @@ def make(fam, impl, form, subset, keys, vals):
         return None
     if kind in F.KINDS:
         cls = F.cls(fam, kind, impl)
+        if form.endswith('/sub'):
+            cls = subclass_of(cls)
         c = cls()
         order = list(keys) if form.endswith('thin') else list(subset)
         ismap = kind in F.MAP_KINDS
@@ -85,15 +110,17 @@ def make(fam, impl, form, subset, keys, vals):
                         c.remove(k)
         return c
     if form == 'list':
-        return list(subset)
+        return [clone(k) for k in subset]
     if form == 'list/shuffled+dup':
         s = list(subset)
         s = s[1::2] + s[::2][::-1]
-        return s + s[:1]
+        return [clone(k) for k in s + s[:1]]
     if form == 'tuple':
-        return tuple(reversed(subset))
+        return tuple(clone(k) for k in reversed(subset))
     if form == 'gen':
-        return (k for k in reversed(subset))
+        return (clone(k) for k in reversed(subset))
+    if form == 'iter':          # a one-shot iterator that is not a generator
+        return iter([clone(k) for k in reversed(subset)])
     if form == 'pyset':
         return set(subset)
     if form == 'dict':
@@ -103,7 +130,7 @@ def make(fam, impl, form, subset, keys, vals):
 
 def snapshot(obj, form):
     kind = form.split('/')[0]
-    if obj is None or form == 'gen':
+    if obj is None or form in ONE_SHOT:
         return None
     if kind in F.KINDS:
         return C.dump(obj, kind in F.TREE_KINDS)
@@ -118,6 +145,8 @@ def describe(r):
     if r is None:
         return ('None', None)
     tn = type(r).__name__
+    if tn.startswith('Sub'):
+        tn = 'Sub:' + tn[3:]
     if tn.endswith('Py'):
         tn = tn[:-2]
     try:
@@ -157,7 +186,7 @@ def job(fam, impl, n, variant):
     elif variant == 'none':     # None next to ints cannot be sorted in a plain list
         forms = CONTAINER_FORMS + ['None']
     else:
-        forms = CONTAINER_FORMS + ['list/shuffled+dup', 'None']
+        forms = CONTAINER_FORMS + ['list/shuffled+dup', 'iter', 'None']
     modfuncs = [(name, getattr(mod, name + sfx)) for name in ('union', 'intersection', 'difference')]
     alg = {'union': lambda a, b: a | b, 'intersection': lambda a, b: a & b,
            'difference': lambda a, b: a - b, 'or': lambda a, b: a | b, 'and': lambda a, b: a & b,
@@ -285,7 +314,7 @@ def job(fam, impl, n, variant):
                     evaluations += 1
                     guards['operator'] += 1
                     if r[0] != 'ok':
-                        if fb in ('gen',) and r[1] == 'TypeError':
+                        if fb in ONE_SHOT and r[1] == 'TypeError':
                             guards['operator_typeerror_on_generator'] += 1
                             continue
                         rep.add(dict(site=name, cls='exc-' + r[1], impl=impl, fa=ka, fb=kb), case,
